@@ -58,6 +58,8 @@ def run(ctx):
             mixes.append(['CC', 'C=C'])
             # a remapped group of the first component whose target occurs natively in the second, and the reverse
             mixes += [['CO', 'CC'], ['CC', 'CO'], ['CC=C', 'CCC'], ['CCC', 'CC=C']]
+            # a six-ring with a heteroatom before / after a benzene ring
+            mixes += [['C1CCOCC1', 'c1ccccc1'], ['c1ccccc1', 'C1CCOCC1']]
         for comps in mixes:
             mix = '.'.join(comps)
             for s in comps + [mix]:
